@@ -117,6 +117,17 @@ def signature(tu, f):
     s.ret = ret_type(f['fty'])
     s.retshape = vecshape(s.ret)
     s.names = [p['name'] or 'arg%d' % i for i, p in enumerate(f['params'])]
+    # element / scalar type of each parameter under both spellings (canonical and as written in the declaration)
+    written = [(c.get('type') or {}).get('qualType') for c in d.get('inner', ()) if c.get('kind') == 'ParmVarDecl']
+    s.ptypes = []
+    for i, p in enumerate(s.params):
+        names = set()
+        for ct in (p['ct'], written[i] if i < len(written) else None):
+            if not ct:
+                continue
+            sh = vecshape(ct)
+            names.add(tkey(sh['elem']) if sh else tkey(ct))
+        s.ptypes.append(names)
     return s
 
 
@@ -399,6 +410,27 @@ def fam_compound(res, s, v):
         res.und(R2, 'does not return its left operand: %s' % (show(ret, s.names) if ret else 'nothing'))
     if bad or not slots:
         return
+    # R-C04-4 (compound form): where the element types differ, the right operand takes part in its own type; `a.k op= T(b)`
+    # narrows the operand before the operation instead of converting the result
+    T_, U_ = s.ptypes[0], s.ptypes[1]
+    mixed = not (T_ & U_)
+    conv_bad = False
+    for c, t in slots:
+        rhs = t[3]
+        if rhs[0] == 'ctor' and len(rhs[2]) == 1 and rhs[1] is not None and strip_casts(rhs[2][0]) == operand(s, 1, c):
+            ty = rhs[1]
+            if not mixed or ty in U_:
+                continue
+            if ty in T_:
+                res.bad(R4, 'component %s: the right operand `%s` is converted to the element type %s of the left operand before `%s` '
+                            'is applied (`%s`); the scalar definition applies the operation in the common type and converts the '
+                            'result' % (c, show(rhs[2][0], s.names), ty, COMPOUND[s.name], show(t, s.names)), 'operand-narrowed')
+            else:
+                res.und(R4, 'component %s: right operand converted to %s before the operation: `%s`' % (c, ty, show(t, s.names)))
+            conv_bad = True
+            break
+    if mixed and not conv_bad:
+        res.ok(R4, 'right operand reaches `%s` in its own type' % COMPOUND[s.name])
     exp = ('asg', COMPOUND[s.name], operand(s, 0), operand(s, 1))
     check_slots(res, s, slots, vec_operands(s), exp, 'of `%s`' % s.name)
 
